@@ -752,8 +752,25 @@ func runC10(c *mon.Ctx) {
 		n := len(o.Glyphs)
 		list := c10list(k, f, n, info)
 		var so *cff.Outlines
-		if k.Guard("cff.Outlines.Subset", func() { so = o.Subset(append([]glyph.ID{}, list...)) }) {
+		// the caller's slice is reused for something else once Subset has returned
+		arg := make([]glyph.ID, len(list), len(list)+(k.Index/4%2)*8)
+		copy(arg, list)
+		if k.Guard("cff.Outlines.Subset", func() { so = o.Subset(arg) }) {
 			return
+		}
+		if !reflect.DeepEqual([]glyph.ID(arg), []glyph.ID(list)) {
+			k.Fail("mismatch", "callers-list-changed", "cff.Outlines.Subset changed the glyph list it was given: %v -> %v", list, arg)
+			return
+		}
+		switch k.Index % 4 {
+		case 1:
+			clear(arg)
+		case 2:
+			slices.Reverse(arg)
+		case 3:
+			for i := range arg {
+				arg[i] = glyph.ID(n - 1)
+			}
 		}
 		k.Eval()
 		k.Distinct("cffsub", k.Index)
